@@ -32,6 +32,44 @@ def fields_read_into(f, fl, locals_):
     return out
 
 
+def precise_sources(f, fl, l):
+    """Backward pure slice of local l that is sensitive to TUPLE fields: reading `t.1` of a tuple aggregate continues only
+    into the aggregate's second operand (so `match (a.get(k), b.get(k)) { (Some(x), _) => .., (None, Some(y)) => .. }` keeps
+    the two lookups apart)."""
+    tuple_defs = {}
+    for _, _, s in f.stmts():
+        if not s["pl"]["p"] and s["rv"]["k"] == "agg" and s["rv"].get("agg") == "tuple":
+            tuple_defs.setdefault(s["pl"]["l"], []).append(s["rv"]["ops"])
+    seen = set()
+    todo = [l]
+    while todo:
+        x = todo.pop()
+        if x in seen or x is None:
+            continue
+        seen.add(x)
+        for _, _, s in f.stmts():
+            if fl.node(s["pl"]) != x:
+                continue
+            for o in rv_operands(s["rv"]):
+                p = op_place(o)
+                if not p:
+                    continue
+                base = fl.node(p)
+                flds = [e["f"] for e in p["p"] if isinstance(e, dict) and "f" in e]
+                if base in tuple_defs and flds and str(flds[0]).isdigit() and len(tuple_defs[base]) == 1:
+                    ops = tuple_defs[base][0]
+                    i = int(flds[0])
+                    if i < len(ops):
+                        todo.append(op_local(ops[i]))
+                        seen.add(base)      # the tuple itself counts as visited, its other fields do not
+                        continue
+                todo.append(base)
+        for _, t in fl.call_defs.get(x, []):
+            for a in t["args"]:
+                todo.append(op_local(a))
+    return seen
+
+
 def must_pass_all(fn, start, targets, through):
     from paths import must_pass
     return must_pass(fn, start, targets, through)
@@ -242,6 +280,8 @@ def run(tier="quick", replay=None):
                     src = fl.back_pure([l]) if l is not None else set()
                     if t["dest"]["l"] not in src:
                         continue
+                    if t["dest"]["l"] not in precise_sources(fe, fl, l):
+                        continue        # reached only through another field of a tuple of lookups
                     found = True
                     flds = fields_read_into(fe, fl, src - fl.back_pure([t["dest"]["l"]]) | {l})
                     calls = sorted({(callee_of(tt) or "?").rsplit("::", 1)[-1] for x in src - fl.back_pure([op_local(t["args"][0]) or -99])
